@@ -451,6 +451,11 @@ INDEXED_STEPS = [['a', '[', '1', ']'], ['b', '[', '2', ']'], ['*', '[', '2', ']'
                  ['*', '[', '3', ']'], ['text', '(', ')', '[', '1', ']']]
 
 
+PRED_STEPS = [['*', '[', '@', 'x', ']', '[', '1', ']'], ['*', '[', 'not', '(', '@', 'x', ')', ']', '[', '1', ']'], ['*', '[', 'not', '(', '@', 'x', ')', ']', '[', '2', ']'],
+              ['b', '[', 'not', '(', '@', 'x', ')', ']', '[', '1', ']'], ['*', '[', '2', ']', '[', 'not', '(', '@', 'x', ')', ']'], ['node', '(', ')', '[', 'not', '(', '@', 'x', ')', ']', '[', '2', ']'],
+              ['*', '[', 'not', '(', '@', 'y', ')', ']', '[', '1', ']']]
+
+
 def patterns(maxsteps):
     out = [['/']]
     for k in range(1, maxsteps + 1):
@@ -477,12 +482,32 @@ def step_matches(step, n):
         step = ['@'] + step[2:]
     if '[' in step:
         i = step.index('[')
-        base, idx = step[:i], [int(x) for x in step[i:] if x.isdigit()]
+        base = step[:i]
+        groups, cur, depth = [], [], 0
+        for t in step[i:]:
+            if t == '[':
+                depth += 1
+                if depth == 1:
+                    cur = []; continue
+            if t == ']':
+                depth -= 1
+                if depth == 0:
+                    groups.append(cur); continue
+            cur.append(t)
         if not step_matches(base, n) or n.parent is None:
             return False
         sibs = [x for x in (n.parent.attrs if n.kind == 'attr' else n.parent.children) if step_matches(base, x)]
-        for k in idx:
-            sibs = [sibs[k - 1]] if 1 <= k <= len(sibs) else []
+        for g in groups:
+            # each predicate filters what the one before it kept, and numbers it anew (XPath 1.0 2.4)
+            if len(g) == 1 and g[0].isdigit():
+                k = int(g[0])
+                sibs = [sibs[k - 1]] if 1 <= k <= len(sibs) else []
+            elif len(g) == 2 and g[0] == '@':
+                sibs = [x for x in sibs if any(a.local == g[1] for a in x.attrs)]
+            elif len(g) == 5 and g[:3] == ['not', '(', '@'] and g[4] == ')':
+                sibs = [x for x in sibs if not any(a.local == g[3] for a in x.attrs)]
+            else:
+                raise KeyError(step)
         return n in sibs
     if step and step[0] in ('id', 'key') and step[1:2] == ['(']:
         return bool(getattr(n, 'isid', False))          # the call selects the marked nodes, whatever the context
@@ -646,16 +671,32 @@ def run_rule(res, facts, tier):
                     for sep2 in (['/'], ['/', '/']):
                         if fcall[0] == 'id' or (sep, sep2) == (['/', '/'], ['/']):
                             pats.append(fcall + sep + st + sep2 + s2)
+    # a boolean predicate before a position: the position counts what the first predicate kept (interpreted with the expression layer of C02-R19 for the predicate)
+    for ps in PRED_STEPS:
+        for lead in ([], ['/', '/']):
+            pats.append(lead + ps)
+        for s1 in (['a'], ['*']):
+            for sep in (['/'], ['/', '/']):
+                pats.append(s1 + sep + ps)
+        pats.append(ps + ['/'] + ['b'])
+        pats.append(ps + ['/', '/'] + ['@', 'y'])
     uniq, seen = [], set()
     for toks in pats:
         if tuple(toks) not in seen:
             seen.add(tuple(toks))
             uniq.append(toks)
 
+    wplain = w
+    from . import c02_expr
+    wexpr = c02_expr.EWorld(facts)
+    wexpr.doc = doc
+    wexpr.idset = w.idset
+
     def work(part):
         found, families, viol = {}, {}, []
         cnt = {'n': 0, 'checks': 0}
         for toks in part:
+            w = wexpr if any(t in ('not', '@') and '[' in toks[:j] and toks[:j].count('[') > toks[:j].count(']') for j, t in enumerate(toks)) else wplain
             expr = Obj(NS + 'XPathExpression', {'m_opMap': Vec([], 'ops'), 'm_lastOpCodeIndex': 0, 'm_tokenQueue': Vec([Tok(t) for t in toks], 'tokens'), 'm_currentPosition': 0,
                                                 'm_currentPattern': '', 'm_numberLiteralValues': Vec([])})
             xp = Obj(NS + 'XPath', {'m_expression': expr, 'm_locator': 0, 'm_inStylesheet': 1})
@@ -678,6 +719,8 @@ def run_rule(res, facts, tier):
             for nd in nodes:
                 cnt['checks'] += 1
                 w.calls = 0
+                if w is wexpr:
+                    w.cnl = [c02_expr.XO('nodeset', [nd])]; w.current = nd
                 try:
                     mm = OMachine(w, {}, xp)
                     mm.fuel = 20000
